@@ -1,10 +1,10 @@
 package main
 
 import (
-	"strings"
 	"go/constant"
 	"go/types"
 	"sort"
+	"strings"
 
 	"golang.org/x/tools/go/ssa"
 )
